@@ -468,4 +468,36 @@ example : convOk exLine1 = true ∧ convOk exLine2 = true ∧ convOk exLine3 = t
 dictionary ending, finding D14) now converts. -/
 example : convOk (lit "くし /a;∥文語ア行下一(-た)[--]/") = true := by decide +kernel
 
+
+/-! ## what is written is what is parsed (SKK-JISYO lines) -/
+
+open Chokan.Skk in
+/-- **For well-formed lines the parser returns exactly the reading, okuri letter and candidate words written in the line,
+annotations stripped** — stated against an independent printer of SKK lines (`printSkk`: reading in the SKK kana class,
+optional lower-case okuri, blanks, then `/word[;annotation]/…/`), for every such line. -/
+theorem C18_skk_exact (reading okuri sp : Str) (ws : List Written)
+    (hr : reading ≠ []) (hrk : ∀ c ∈ reading, skkKana c = true) (hok : ∀ c ∈ okuri, isAlpha c = true)
+    (hs : sp ≠ []) (hsp : ∀ c ∈ sp, isSpace c = true) (hws : ws ≠ []) (hw : ∀ w ∈ ws, WrittenOK w) :
+    parseSkk (printSkk reading okuri sp ws) =
+      some ⟨reading, if okuri.isEmpty then none else some okuri, ws.map (·.word)⟩ :=
+  parseSkk_print reading okuri sp ws hr hrk hok hs hsp hws hw
+
+open Chokan.Skk in
+/-- … hence the noun converter emits one common noun per written word of an okuri-less line and skips okuri-ari lines, and
+the jinmei converter one proper noun per written word. -/
+theorem C18_skk_converters_exact (reading okuri sp : Str) (ws : List Written)
+    (hr : reading ≠ []) (hrk : ∀ c ∈ reading, skkKana c = true) (hok : ∀ c ∈ okuri, isAlpha c = true)
+    (hs : sp ≠ []) (hsp : ∀ c ∈ sp, isSpace c = true) (hws : ws ≠ []) (hw : ∀ w ∈ ws, WrittenOK w) :
+    parseNouns (printSkk reading okuri sp ws) =
+      some (if okuri.isEmpty then some (ws.map fun w => ⟨w.word, reading, .noun .common⟩) else none) ∧
+    parsePropers (printSkk reading okuri sp ws) = some (some (ws.map fun w => ⟨w.word, reading, .noun .proper⟩)) := by
+  unfold parseNouns parsePropers
+  rw [parseSkk_print reading okuri sp ws hr hrk hok hs hsp hws hw]
+  cases h : okuri.isEmpty <;> simp [h, List.map_map, Function.comp_def]
+
+open Chokan.Skk in
+/-- non-vacuity: `かk /書;write/描/` -/
+example : parseSkk (printSkk [12363] [107] [32] [⟨[26360], some [119, 114, 105, 116, 101]⟩, ⟨[25551], none⟩]) =
+    some ⟨[12363], some [107], [[26360], [25551]]⟩ := by decide
+
 end Chokan.Props.C18
